@@ -18,9 +18,12 @@ def instances():
 def sp(x): return 'md::dynamic_extent' if x in (None, 'D') else str(x)
 def key(kind, i): return '%s:%s:%s:%s' % (kind, i[0], i[2], '%s,%s,%s,%s,%d' % (i[1], i[3], i[4], i[5], i[6]))
 def line(kind, i): return '%s %s %s k=%s' % (kind, i[0], i[2], '%s,%s,%s,%s,%d' % (i[1], i[3], i[4], i[5], i[6]))
-def sources(ntu=16):
+def lite(insts):
+    return [i for i in insts if (i[2], i[5]) in (('i32', 'i32'), ('u8', 'i32')) and i[6] <= 2]
+
+def sources(ntu=16, insts=None):
     tus = [[] for _ in range(ntu)]
-    for n, i in enumerate(instances()):
+    for n, i in enumerate(insts if insts is not None else instances()):
         sk, ssp, t, dk, dsp, u, r = i
         tus[n % ntu].append('  regConv<%s, %s, %s, %s, %s, %s>("%s", "%s");' % (KINDS[sk], cxx_extents(t, [None] * r), sp(ssp), KINDS[dk], cxx_extents(u, [None] * r), sp(dsp), key('conv', i), key('mapeq', i)))
     srcs = [('conv_tu%d.cpp' % i, '#include "convsrv.hpp"\nusing namespace vh;\nvoid reg_conv_%d() {\n%s\n}\n' % (i, '\n'.join(b))) for i, b in enumerate(tus)]
